@@ -461,7 +461,31 @@ func (r *c5Run) derive(p *c5Node) *c5Node {
 	ch := r.ch
 	m := p.m.clone()
 	tag := fmt.Sprintf("n%d_", len(r.nodes))
-	switch ch.Weighted(6, 2, 2, 3, 3, 2, 1, 3, 1, 1, 1, 1) {
+	switch ch.Weighted(6, 2, 2, 3, 3, 2, 1, 3, 1, 1, 1, 1, 2) {
+	case 12:
+		// one Context value used twice: a logger taken from it as it is, and a logger taken
+		// from it after more fields were added (only one branch appends: this is not the
+		// two-appending-branches pattern of the known finding D6)
+		ops1 := r.genCtxOps(tag)
+		ops2 := r.genCtxOps(tag + "x_")
+		r.task().seen = nil
+		c := applyCtx(p.lg.With(), ops1)
+		var short, long zerolog.Logger
+		if ch.Chance(1, 2) {
+			short = c.Logger()
+			long = applyCtx(c, ops2).Logger()
+		} else {
+			long = applyCtx(c, ops2).Logger()
+			short = c.Logger()
+		}
+		r.checkSeen(p.m.ctxID, fmt.Sprintf("deriving two loggers from one Context of n%d", p.id))
+		ms := m.clone()
+		ms.fields = append(ms.fields, ops1)
+		ml := m.clone()
+		ml.fields = append(ml.fields, ops1, ops2)
+		zsim.Probe("context_value_used_twice")
+		r.addNode(long, ml, fmt.Sprintf("n%d.With(%s)+(%s)", p.id, opsString(ops1), opsString(ops2)))
+		return r.addNode(short, ms, fmt.Sprintf("n%d.With(%s) [same Context value]", p.id, opsString(ops1)))
 	case 10:
 		// hooks that discard selected events; two of them discard the same event twice
 		if ch.Chance(1, 2) {
